@@ -328,14 +328,14 @@ def run_case(sh, case):
 
 
 def run(sh):
-    n = 2000 if sh.tier == 'quick' else 60000
+    n = 2000 if sh.tier == 'quick' else 400000
     pol = ['prng', 'fifo', 'lifo', 'const']
     for i in sh.share(n):
         rng = random.Random(core.stable_int(sh.seed, 'C12', i))
         run_case(sh, gen_case(rng, pol[i % 4]))
     # targets that are real processors in running lines (default hooks = shutdown / restore)
     from .. import engine_line
-    engine_line.run_profile(sh, 'C12', 'faults', 200 if sh.tier == 'quick' else 4000, ('maint',),
+    engine_line.run_profile(sh, 'C12', 'faults', 200 if sh.tier == 'quick' else 20000, ('maint',),
                             nontrivial=lambda f: f.get('orders_completed', 0) > 0, prefix='line_',
                             overrides={'p_maintainer': 1.0})
 
